@@ -19,3 +19,16 @@ func VerifCap(q *Queue) int64 {
 	defer q.mx.Unlock()
 	return q.maxActiveQuery
 }
+
+// VerifReleaseRacingCancel performs Release's critical section while `cancel` (a context cancel of a parked
+// Acquire) fires inside it: the woken waiter blocks on q.mx, so if it is the one being granted it takes the
+// `isClosed` branch of Acquire. `settle` gives the waiter time to reach the mutex (any schedule is legal:
+// correct code keeps the slot for a query that was granted, whichever select branch it takes).
+func VerifReleaseRacingCancel(q *Queue, cancel func(), settle func()) {
+	q.mx.Lock()
+	cancel()
+	settle()
+	q.activeQuery--
+	q.nextQueryLocked()
+	q.mx.Unlock()
+}
